@@ -80,7 +80,7 @@ func snapshotCheck(prop string, mod func(*gridOpts), extraRule string) int {
 	}
 	rep := explore.NewReport(prop, "model_checking")
 	rep.Rule = "snapshot enumeration (grids explored in order): " + desc + "One real reconcile per snapshot, judged against the snapshot it saw. " + extraRule +
-		" The same monitor also runs over the progress closure of the C02 seeds explored with stale caches (lag bound L=1; thorough: L=1 with one deviation and L=2), where the reconciler sees snapshots lacking its own latest writes. A case is non-trivial when the reconcile issued at least one API write or returned an error; distinct = distinct canonical state keys among those."
+		" The same monitor also runs over the progress closure of the C02 seeds explored with stale caches (lag bound L=1; thorough: L=1 with one deviation and L=2), where the reconciler sees snapshots lacking its own latest writes, and over a fault phase (every write on pods of the C09 seed closure hit by an InternalError, a lost response, a concurrent delete or an already-exists answer; faulted and recovery reconciles are judged). A case is non-trivial when the reconcile issued at least one API write or returned an error; distinct = distinct canonical state keys among those."
 	rep.Assumptions = apiAssumptions
 	var n int64
 	explore.RunSnapshots(rep, explore.Deadline(100*time.Second, 25*time.Minute), func(emit func(explore.Case) bool) {
@@ -101,6 +101,11 @@ func snapshotCheck(prop string, mod func(*gridOpts), extraRule string) int {
 		c12CensusClause(rep)
 	}
 	lagPhases(rep, prop)
+	if prop == "C03" || prop == "C04" || prop == "C05" || prop == "C14" {
+		// pod writes that fail, lose their response, find the pod gone or already there
+		faultPhase(rep, prop, []string{world.FErr500, world.FTimeout, world.FGone, world.FExists},
+			func(c *world.Call) bool { return c.Resource == "pods" && c.IsWrite() }, time.Now().Add(3*time.Minute))
+	}
 	if prop == "C07" {
 		// update deletes that fail or find the pod gone (a concurrent delete), and pod creates that fail
 		faultPhase(rep, "C07", []string{world.FGone, world.FErr500, world.FTimeout},
